@@ -16,12 +16,14 @@ NAME = 'x.' + T
 
 
 def records(rng):
-    host = rng.choice(['h.local.', 'h.local.', 'H.local.'])
+    # (a service registered without server= advertises its own instance name as the SRV target: host records owned by the instance name)
+    host = rng.choice(['h.local.', 'h.local.', 'H.local.', 'h.local.', NAME])
+    h2 = NAME if host == NAME else 'h.local.'
     srv = rec('KService', rng.choice([NAME, NAME, 'X.' + T]), 33, 0x8001, port=rng.choice([80, 81]), weight=1, priority=2, server=host, ttl=120)
     txt = rec('KText', NAME, 16, 0x8001, text=rng.choice([b'\x01a', b'']), ttl=4500)
     a1 = rec('KAddress', host, 1, 0x8001, address=bytes([10, 0, 0, 1]), ttl=120)
-    a2 = rec('KAddress', 'h.local.', 1, 0x8001, address=bytes([10, 0, 0, 2]), ttl=120)
-    a6 = rec('KAddress', 'h.local.', 28, 0x8001, address=bytes([0xfe, 0x80] + [0] * 13 + [1]), ttl=120)
+    a2 = rec('KAddress', h2, 1, 0x8001, address=bytes([10, 0, 0, 2]), ttl=120)
+    a6 = rec('KAddress', h2, 28, 0x8001, address=bytes([0xfe, 0x80] + [0] * 13 + [1]), ttl=120)
     other_srv = rec('KService', NAME, 33, 0x8001, port=9, weight=0, priority=0, server='g.local.', ttl=120)
     ga = rec('KAddress', 'g.local.', 1, 0x8001, address=bytes([10, 0, 0, 9]), ttl=120)
     unrelated = rec('KAddress', 'zz.local.', 1, 0x8001, address=bytes([10, 9, 9, 9]), ttl=120)
@@ -237,6 +239,25 @@ def oracle(sc, res):
             return f"the cache already held a live SRV and address at the start, yet a query was transmitted at +0"
         if not (res['result'] and res['t_ret'] == t0):
             return f"the cache already held a live SRV and address at the start, yet the lookup returned {res['result']} at +{res['t_ret'] - t0}"
+    # ... and the other direction of "succeeds iff it knows an address": a lookup that gave up at its deadline although the one SRV record of
+    # the instance and an address record of that SRV's host had both arrived (or were cached) before the deadline and were both still
+    # unexpired then, did not take in what it was told. (Judged only on histories with a single SRV target and no goodbye for either record.)
+    if not res['result']:
+        allrecs = [r for _, recs in sc['pre'] + sc['during'] for r in recs]
+        targets = {r['server'].lower() for r in allrecs if r['kind'] == 'KService' and r['name'].lower() == NAME.lower()}
+        rcd = refcache.RefCache(NoProbes())
+        for t, recs in events:
+            if t >= res['t_ret']:
+                break
+            rcd.event(('purge', t) if recs is None else ('resp', t, recs, []))
+        live = [d for d in rcd.flat.values() if d['created'] + 1000 * d['ttl'] > res['t_ret']]
+        if len(targets) == 1:
+            host = next(iter(targets))
+            gone = [r for r in allrecs if r['ttl'] == 0 and (r['kind'] == 'KService' or r['name'].lower() == host)]
+            if not gone and any(d['kind'] == 'KService' and d['name'].lower() == NAME.lower() for d in live) and \
+                    any(d['kind'] == 'KAddress' and d['name'].lower() == host for d in live):
+                return (f"the lookup failed at its deadline although an unexpired SRV record of the instance and an unexpired address record of "
+                        f"its host {host} had reached the instance before the deadline")
     return oracle_questions(sc, res)
 
 
@@ -311,6 +332,26 @@ def run(ctx):
     mism = ctx.run_cases('Model.Base Model.PyRec Model.Info Model.ValSet Corr.C18', 'list ilabel', 'c18_run', [(c, o) for c, o, _ in coq_cases],
                          shard=max(10, len(coq_cases) // (2 * common.NPROC) + 1), mismatch_fn='mismatches_u')
     ctx.cov['traces_validated_against_impl'] = len(coq_cases) - len(mism)
+    if mism and not fails:
+        # the model and the code disagree: look for an input on which the property itself fails, among fresh scenarios that share the
+        # shape of the disagreeing ones (same SRV target, same forced question type) - oracle only, no model involved
+        def shape(sc):
+            srv = [r['server'].lower() for _, recs in sc['pre'] + sc['during'] for r in recs if r['kind'] == 'KService']
+            return (tuple(sorted(set(srv))), sc['forced'])
+        shapes = {shape(coq_cases[idx][2]) for idx, _ in mism}
+        tried = 0
+        for _ in range(20000):
+            if tried >= 1500 or len(fails) >= 2:
+                break
+            sc = gen_scenario(rng)
+            if shape(sc) not in shapes:
+                continue
+            tried += 1
+            why = oracle(sc, run_scenario(sc))
+            if why:
+                fails.append((sc, why))
+                ctx.violation({'kind': 'oracle', 'found_by': 'search after a correspondence mismatch', 'why': why, 'scenario': jsonable(sc)})
+        ctx.cov['failing_input_search'] = f"{tried} scenarios of the disagreeing shapes"
     for idx, model_out in mism[:3]:
         ctx.violation({'kind': 'correspondence', 'what': 'Model.Info (async_request loop / record processing) disagrees with the implementation on the logged label sequence',
                        'scenario': jsonable(coq_cases[idx][2]), 'labels': coq_cases[idx][0][:3000], 'implementation': str(coq_cases[idx][1])[:2500], 'model': model_out[:2500]},
